@@ -41,7 +41,9 @@ fn check_map(toks: &[(u32, u32, bool)], maxl: u32, maxc: u32) -> Option<String> 
 
 /// C04 / C07 lookup half
 pub fn lookup() -> Report {
-    let bound = "all non-decreasing token lists of length <= 6 over positions {0,1,2}x{0,2,5} (range flag on even/odd variants), runs of 1..14 equal positions with 0..2 neighbours either side; all queries in [0,3]x[0,7]";
+    let maxlen = if crate::deep() { 5 } else { 4 };
+    let bound_s = format!("all non-decreasing token lists of length <= {maxlen} over positions {{0,1,2}}x{{0,2,5}} (range flag on even/odd variants), runs of 1..14 equal positions with 0..2 neighbours either side; all queries in [0,3]x[0,7]");
+    let bound = bound_s.as_str();
     let keys: Vec<(u32, u32)> = (0..3).flat_map(|l| [0u32, 2, 5].into_iter().map(move |c| (l, c))).collect();
     let mut cases = 0u64;
     fn rec(keys: &[(u32, u32)], from: usize, cur: &mut Vec<(u32, u32, bool)>, left: usize, cases: &mut u64) -> Option<String> {
@@ -56,7 +58,7 @@ pub fn lookup() -> Report {
         None
     }
     let mut cur = vec![];
-    if let Some(c) = rec(&keys, 0, &mut cur, 4, &mut cases) { return Report { harness: "lookup", bound: bound.into(), cases, cex: Some(c) }; }
+    if let Some(c) = rec(&keys, 0, &mut cur, maxlen, &mut cases) { return Report { harness: "lookup", bound: bound.into(), cases, cex: Some(c) }; }
     for pre in 0..=2usize { for run in 1..=14usize { for suf in 0..=2usize {
         let mut t = vec![];
         for i in 0..pre { t.push((0, i as u32, false)); }
